@@ -135,6 +135,43 @@ def tap_everywhere(ctx, func_module, func_name, monitor, extra_sites=()):
     return len(sites)
 
 
+def definers(attr, base=None, packages=("menpo",)):
+    """Every class defined in the given packages (tests excluded) that defines `attr` in its own __dict__ - discovered at
+    run time, so an override added by a change under test is monitored like the existing ones."""
+    import inspect
+    seen, out = set(), []
+    for mname, m in sorted(sys.modules.items()):
+        if m is None or not any(mname == p or mname.startswith(p + ".") for p in packages) or ".test" in mname:
+            continue
+        for name, obj in list(vars(m).items()):
+            if inspect.isclass(obj) and id(obj) not in seen and obj.__module__.split(".")[0] in packages and ".test" not in obj.__module__:
+                seen.add(id(obj))
+                if attr in obj.__dict__ and (base is None or issubclass(obj, base)):
+                    raw = obj.__dict__[attr]
+                    if callable(raw) or isinstance(raw, (staticmethod, classmethod)):
+                        out.append(obj)
+    return out
+
+
+def load_all_menpo():
+    """Import every menpo sub-package the properties are anchored in, so that discovery sees all classes."""
+    for name in ("menpo", "menpo.base", "menpo.shape", "menpo.image", "menpo.transform", "menpo.landmark", "menpo.model", "menpo.feature", "menpo.io",
+                 "menpo.transform.piecewiseaffine.base", "menpo.transform.rbf", "menpo.transform.groupalign.procrustes", "menpo.math"):
+        try:
+            importlib.import_module(name)
+        except Exception:
+            pass
+
+
+def tap_definers(ctx, attr, make_monitor, base=None):
+    """Tap `attr` on every class that defines it; make_monitor(owner) -> Monitor.  Returns the owners tapped."""
+    load_all_menpo()
+    owners = [c for c in definers(attr, base) if not getattr(c.__dict__[attr], "__wrapped_by_vf__", False)]
+    for c in owners:
+        tap(ctx, c, attr, make_monitor(c))
+    return owners
+
+
 def detach_all():
     while _INSTALLED:
         owner, attr, raw = _INSTALLED.pop()
